@@ -161,9 +161,12 @@ def harnesses(tier):
         hs.append(Join("left_join", ["i"], 2, 2, renamed=True))
         hs.append(Join("full_join", ["i"], 2, 2, renamed=True))
         hs.append(Join("inner_join", ["i", "f"], 2, 2))
+        for kind in ("left_join", "anti_join", "full_join"):
+            hs.append(Join(kind, ["td"], 2, 2))
+        hs.append(Join("semi_join", ["us"], 2, 2))
     else:
         for kind in JOINS:
-            for k in ["f", "i", "T", "D", "b", "O"]:
+            for k in ["f", "i", "T", "D", "b", "O", "td", "us"]:
                 hs.append(Join(kind, [k], 3, 3))
             hs.append(Join(kind, ["i"], 3, 3, renamed=True))
             hs.append(Join(kind, ["i", "f"], 2, 3))
